@@ -38,21 +38,16 @@ type step struct {
 	Off    int64   `json:"off,omitempty"`
 	Len    int     `json:"len,omitempty"`
 	Tag    int     `json:"tag,omitempty"`
+	N      int     `json:"n,omitempty"`  // concurrent test, churn/wchurn: number of repetitions
 	HS     *hsSpec `json:"hs,omitempty"` // new: nil = pool.ZeroHoleSource
 	Region string  `json:"region,omitempty"`
 	Res    string  `json:"res,omitempty"`
 }
 
-type faultSpec struct {
-	Index int    `json:"index"`
-	Site  string `json:"site"`
-	Kind  string `json:"kind"`
-}
-
 type script struct {
-	Cfg   config     `json:"cfg"`
-	Steps []step     `json:"steps"`
-	Fault *faultSpec `json:"fault,omitempty"`
+	Cfg    config      `json:"cfg"`
+	Steps  []step      `json:"steps"`
+	Faults []faultSpec `json:"faults,omitempty"` // the second one is numbered in the run that has the first one injected
 }
 
 func (s script) String() string {
@@ -73,6 +68,7 @@ type stats struct {
 	modelHS, hsHole, multi, reuse, partialSector    bool
 	faultSurfaced, split                            bool
 	truncFailedUntouched, truncFailedHalfDone       bool
+	hsClosed                                        bool
 }
 
 type engine struct {
@@ -105,6 +101,25 @@ func newEngine(cfg config, plan *faultPlan) *engine {
 	bd := pool.NewBlockDeviceBackedFilePool(e.dev, e.spy, cfg.SS)
 	e.pool = pool.NewQuotaEnforcingFilePool(&faultyPool{base: bd, plan: plan}, uint64(cfg.MaxFiles), cfg.MaxBytes)
 	return e
+}
+
+// newConcurrentEngine builds the same stack for the concurrent test: the
+// fakes get no fault plan (they are called from several goroutines), the
+// spy skips its sequential-only statistics, and a meter below the quota
+// layer counts what the quota layer lets through.
+func newConcurrentEngine(cfg config) (*engine, *quotaMeter) {
+	e := &engine{cfg: cfg, plan: noFaults(), prob: &problems{}, bytesFree: cfg.MaxBytes}
+	e.dev = &memDevice{data: make([]byte, cfg.SS*cfg.Sectors), prob: e.prob, eofAtEnd: cfg.EOFAtEnd}
+	for i := range e.dev.data {
+		e.dev.data[i] = 0xa5
+	}
+	e.raw = pool.NewBitmapSectorAllocator(uint32(cfg.Sectors))
+	e.spy = newSpy(e.raw, cfg.Sectors, nil, e.prob)
+	e.spy.concurrent = true
+	meter := &quotaMeter{maxFiles: int64(cfg.MaxFiles), maxBytes: int64(cfg.MaxBytes), prob: e.prob}
+	bd := pool.NewBlockDeviceBackedFilePool(e.dev, e.spy, cfg.SS)
+	e.pool = pool.NewQuotaEnforcingFilePool(&faultyPool{base: bd, meter: meter}, uint64(cfg.MaxFiles), cfg.MaxBytes)
+	return e, meter
 }
 
 func (e *engine) openSlots() []int {
@@ -156,11 +171,21 @@ func (e *engine) apply(st *step) (verr error) {
 			verr = fmt.Errorf("panic during %s on file %d: %v\n%s", st.Op, st.F, r, debug.Stack())
 		}
 	}()
-	firedBefore := e.plan.fired
-	// lenient: the injected fault fired during this very step and is of a
-	// kind that makes the environment fail; then an error result is
-	// legitimate and the model follows what the API reported.
-	lenient := func() bool { return e.plan.fired && !firedBefore && e.plan.kind != "one" }
+	firedBefore := len(e.plan.fired)
+	// failing: the injected fault that fired during this very step and is
+	// of a kind that makes the environment fail (the last one, if both
+	// faults of a two-fault run hit the same step).
+	failing := func() *faultSpec {
+		for k := len(e.plan.fired) - 1; k >= firedBefore; k-- {
+			if e.plan.fired[k].Kind != "one" {
+				return &e.plan.fired[k]
+			}
+		}
+		return nil
+	}
+	// lenient: such a fault fired; then an error result is legitimate and
+	// the model follows what the API reported.
+	lenient := func() bool { return failing() != nil }
 
 	var of *ofile
 	if st.Op != "new" {
@@ -357,14 +382,15 @@ func (e *engine) apply(st *step) (verr error) {
 			// states enumerated for the call that failed: length,
 			// every byte and the data/hole map are compared, and the
 			// matching state becomes the model.
-			cands, names := e.truncFailureStates(of.m, st.Off)
+			flt := failing()
+			cands, names := e.truncFailureStates(of.m, st.Off, flt)
 			matched := -1
 			var firstErr error
 			e.plan.paused = true
 			others := e.modelDataSectors() - of.m.dataSectors()
 			for k, c := range cands {
 				cerr := e.checkFile(st.F, of, c, true)
-				if got, want := len(e.spy.outstanding), others+c.dataSectors(); cerr == nil && got != want {
+				if got, want := e.spy.outstandingCount(), others+c.dataSectors(); cerr == nil && got != want {
 					// Same bytes and data/hole map, but a different
 					// number of sectors is in use: not this state.
 					cerr = fmt.Errorf("%d sectors are handed out (%v), this state needs %d", got, e.spy.outstandingList(), want)
@@ -379,7 +405,7 @@ func (e *engine) apply(st *step) (verr error) {
 			}
 			e.plan.paused = false
 			if matched < 0 {
-				return fmt.Errorf("Truncate(%d) of a file of %d bytes failed (%v, injected %s:%s) and left the file in none of the states a failed truncation may leave behind %v; compared with the untouched file: %v", st.Off, size, err, e.plan.sites[e.plan.failAt], e.plan.kind, names, firstErr)
+				return fmt.Errorf("Truncate(%d) of a file of %d bytes failed (%v, injected %s:%s) and left the file in none of the states a failed truncation may leave behind %v; compared with the untouched file: %v", st.Off, size, err, flt.Site, flt.Kind, names, firstErr)
 			}
 			of.m = cands[matched]
 			if names[matched] == "untouched" {
@@ -435,6 +461,13 @@ func (e *engine) apply(st *step) (verr error) {
 				return fmt.Errorf("Close failed: %v", err)
 			}
 			e.st.faultSurfaced = true
+		}
+		// Whatever Close reports, it has closed the hole source, once.
+		if of.hs != nil {
+			e.st.hsClosed = true
+			if of.hs.closed != 1 {
+				return fmt.Errorf("Close of file %d (%s) closed its hole source %d times, want exactly once", st.F, st.Res, of.hs.closed)
+			}
 		}
 		// Whatever Close reports, the file is gone and everything it
 		// held must be back in the pool.
@@ -566,10 +599,10 @@ func checkSeek(m *mfile, off int64, rt filesystem.RegionType, got int64, err err
 func (e *engine) invariants(touched int) error {
 	e.plan.paused = true
 	defer func() { e.plan.paused = false }()
-	if e.prob.first != "" {
-		return fmt.Errorf("%s", e.prob.first)
+	if p := e.prob.get(); p != "" {
+		return fmt.Errorf("%s", p)
 	}
-	if got, want := len(e.spy.outstanding), e.modelDataSectors(); got != want {
+	if got, want := e.spy.outstandingCount(), e.modelDataSectors(); got != want {
 		return fmt.Errorf("%d sectors are handed out (%v) but the files hold %d data sectors according to the model", got, e.spy.outstandingList(), want)
 	}
 	for i, of := range e.files {
@@ -579,9 +612,88 @@ func (e *engine) invariants(touched int) error {
 		if err := e.checkFile(i, of, of.m, i == touched); err != nil {
 			return err
 		}
+		// The hole source lives as long as its file: it is closed by the
+		// file's Close, not before the last use.
+		if of.hs != nil && of.hs.closed != 0 {
+			return fmt.Errorf("file %d is open, but its hole source has been closed (%d times)", i, of.hs.closed)
+		}
 	}
-	if e.prob.first != "" {
-		return fmt.Errorf("%s", e.prob.first)
+	if err := e.probeQuota(e.open, e.bytesFree, e.files[:]); err != nil {
+		return err
+	}
+	if p := e.prob.get(); p != "" {
+		return fmt.Errorf("%s", p)
+	}
+	return nil
+}
+
+// probeQuota measures, after every step, what the quota layer has
+// actually charged, so that a mis-charge is seen when it happens and not
+// only when a later operation crosses the limit or at the very end (where
+// it may have cancelled out at Close). Nothing here touches a sector, the
+// device or a hole source of the case, and everything obtained is given
+// back before returning:
+//
+//   - file count: exactly MaxFiles-open further (empty, zero-hole-source)
+//     files can be created, not one more;
+//   - bytes, through a scratch file if the file count leaves room for
+//     one: Truncate to bytesFree+1 is refused, to bytesFree is granted;
+//   - bytes, through every open file of the case: an EMPTY WriteAt at
+//     offset size+bytesFree+1 is refused by the quota layer and one at
+//     size+bytesFree is granted. The quota layer charges the distance
+//     from the file's size to the end of the write before it forwards
+//     the write and releases whatever the write did not use afterwards;
+//     an empty write uses nothing and is answered (0, nil) by the base
+//     file without looking at the offset. This also compares the size
+//     the quota layer has on record for each single file with the model.
+func (e *engine) probeQuota(open int, bytesFree uint64, files []*ofile) (verr error) {
+	var scratch []filesystem.FileReadWriter
+	defer func() {
+		for _, f := range scratch {
+			if err := f.Close(); err != nil && verr == nil {
+				verr = fmt.Errorf("quota probe: closing an empty scratch file failed: %v", err)
+			}
+		}
+	}()
+	for i := open; i < e.cfg.MaxFiles; i++ {
+		f, err := e.pool.NewFile(pool.ZeroHoleSource, 0)
+		if err != nil {
+			return fmt.Errorf("quota probe: %d files are open and the quota is %d files, but creating file number %d fails: %v", open, e.cfg.MaxFiles, i+1, err)
+		}
+		scratch = append(scratch, f)
+	}
+	if f, err := e.pool.NewFile(pool.ZeroHoleSource, 0); err == nil {
+		scratch = append(scratch, f)
+		return fmt.Errorf("quota probe: %d files are open and the quota is %d files, but %d files can be created", open, e.cfg.MaxFiles, e.cfg.MaxFiles+1)
+	} else if status.Code(err) != codes.InvalidArgument {
+		return fmt.Errorf("quota probe: NewFile beyond the file count quota failed with %v, want InvalidArgument", err)
+	}
+	free := int64(bytesFree)
+	if len(scratch) > 0 {
+		f := scratch[0]
+		if err := f.Truncate(free + 1); err == nil {
+			return fmt.Errorf("quota probe: %d bytes of the size quota of %d should be left, but a scratch file can be grown to %d bytes", free, e.cfg.MaxBytes, free+1)
+		} else if status.Code(err) != codes.InvalidArgument {
+			return fmt.Errorf("quota probe: Truncate beyond the size quota failed with %v, want InvalidArgument", err)
+		}
+		if err := f.Truncate(free); err != nil {
+			return fmt.Errorf("quota probe: %d bytes of the size quota of %d should be left, but a scratch file cannot be grown to %d bytes: %v", free, e.cfg.MaxBytes, free, err)
+		}
+		if err := f.Truncate(0); err != nil {
+			return fmt.Errorf("quota probe: Truncate(0) of a scratch file without data failed: %v", err)
+		}
+	}
+	for i, of := range files {
+		if of == nil {
+			continue
+		}
+		size := of.m.size()
+		if n, err := of.f.WriteAt(nil, size+free+1); n != 0 || status.Code(err) != codes.InvalidArgument {
+			return fmt.Errorf("quota probe: %d bytes of the size quota of %d should be left, but an empty write %d bytes past the end of file %d (size %d) returned (%d, %v), want InvalidArgument", free, e.cfg.MaxBytes, free+1, i, size, n, err)
+		}
+		if n, err := of.f.WriteAt(nil, size+free); n != 0 || err != nil {
+			return fmt.Errorf("quota probe: %d bytes of the size quota of %d should be left, but an empty write %d bytes past the end of file %d (size %d) returned (%d, %v)", free, e.cfg.MaxBytes, free, i, size, n, err)
+		}
 	}
 	return nil
 }
@@ -600,10 +712,10 @@ func (e *engine) invariants(touched int) error {
 //     new size are released, the tail of the new last sector is zeroed,
 //     the length is still the old one and the cut-off part reads as what
 //     the (untruncated) hole source holds there.
-func (e *engine) truncFailureStates(m *mfile, newSize int64) ([]*mfile, []string) {
+func (e *engine) truncFailureStates(m *mfile, newSize int64, flt *faultSpec) ([]*mfile, []string) {
 	ss := int64(m.ss)
 	old := m.size()
-	site := e.plan.sites[e.plan.failAt]
+	site := flt.Site
 	untouched := m.clone()
 	if newSize >= old {
 		return []*mfile{untouched}, []string{"untouched"}
@@ -616,7 +728,7 @@ func (e *engine) truncFailureStates(m *mfile, newSize int64) ([]*mfile, []string
 	lastIsData := newSize%ss != 0 && m.isAlloc(newSize/ss)
 	switch site {
 	case "dev.write":
-		if e.plan.kind == "short" && lastIsData {
+		if flt.Kind == "short" && lastIsData {
 			k := (tailEnd - newSize) / 2
 			for x := newSize; x < newSize+k; x++ {
 				untouched.data[x] = 0
@@ -741,13 +853,19 @@ func (e *engine) finish() (verr error) {
 		if err := of.f.Close(); err != nil {
 			return fmt.Errorf("final Close of file %d failed: %v", i, err)
 		}
+		if of.hs != nil {
+			e.st.hsClosed = true
+			if of.hs.closed != 1 {
+				return fmt.Errorf("final Close of file %d closed its hole source %d times, want exactly once", i, of.hs.closed)
+			}
+		}
 		e.files[i] = nil
 	}
 	e.spy.curOwner = -1
-	if e.prob.first != "" {
-		return fmt.Errorf("%s", e.prob.first)
+	if p := e.prob.get(); p != "" {
+		return fmt.Errorf("%s", p)
 	}
-	if n := len(e.spy.outstanding); n != 0 {
+	if n := e.spy.outstandingCount(); n != 0 {
 		return fmt.Errorf("after closing every file %d sectors are still handed out: %v", n, e.spy.outstandingList())
 	}
 
@@ -816,10 +934,10 @@ func (e *engine) finish() (verr error) {
 	if err := f.Close(); err != nil {
 		return fmt.Errorf("closing failed: %v", err)
 	}
-	if e.prob.first != "" {
-		return fmt.Errorf("%s", e.prob.first)
+	if p := e.prob.get(); p != "" {
+		return fmt.Errorf("%s", p)
 	}
-	if n := len(e.spy.outstanding); n != 0 {
+	if n := e.spy.outstandingCount(); n != 0 {
 		return fmt.Errorf("after the capacity check %d sectors are still handed out: %v", n, e.spy.outstandingList())
 	}
 
@@ -871,6 +989,7 @@ func (s stats) labels() []string {
 	add(s.multi, "two-files-with-data")
 	add(s.reuse, "sector-reused-by-other-file")
 	add(s.partialSector, "unaligned")
+	add(s.hsClosed, "hole-source-closed-once-checked")
 	return l
 }
 
